@@ -281,6 +281,9 @@ func c03(r *eng.Run) {
 			one(strings.ReplaceAll(shape, "%s", num), "number-range")
 		}
 	}
+	for _, d := range relatedNameDocs() {
+		one(d, "related-member-names")
+	}
 	// the shared hard-number and hard-string pools in every value position
 	hn := hardNumbers()
 	eng.Parallel(len(hn), func(i int) {
